@@ -89,4 +89,17 @@ def client_method_name (self_name : Str) (self_is_internal : Bool) : Str :=
   let name : Str := (if (strIn (lower self_name) (GapicModel.Pinned.pyKeywords.map String.toList)) then (self_name ++ (['_'] : Str)) else self_name)
   (if self_is_internal then (make_private name) else name)
 
+-- gapic/utils/lines.py — sort_lines
+def sort_lines (text : Str) (dedupe : Bool) : Str :=
+  let leading : Str := (if (startswith text ([(Char.ofNat 10)] : Str)) then ([(Char.ofNat 10)] : Str) else ([] : Str))
+  let trailing : Str := (if (endswith text ([(Char.ofNat 10)] : Str)) then ([(Char.ofNat 10)] : Str) else ([] : Str))
+  let lines : List Str := (((((split (strip text) [(Char.ofNat 10)])).filter fun i_ => (truthy (strip i_)))).map fun i_ => i_)
+  if dedupe then
+  (let lines : List Str := (dedup lines)
+  let answer : Str := (join ([(Char.ofNat 10)] : Str) (sortStr lines))
+  (leading ++ answer ++ trailing))
+  else
+  (let answer : Str := (join ([(Char.ofNat 10)] : Str) (sortStr lines))
+  (leading ++ answer ++ trailing))
+
 end GapicModel.Pinned.Funcs
